@@ -28,6 +28,17 @@ LEAVES = S.scalar_node(S.SCALARS.filter(lambda v: not isinstance(v, str) or _str
 def _case(draw):
     keys = S.any_keys().filter(lambda k: not isinstance(k, str) or _str_ok(k))
     skel = draw(S.mapping_doc(LEAVES, keys, max_leaves=14, max_children=4))
+    # yaml anchors / aliases: some node of the document is used again further down (PyYAML loads the same content there)
+    if draw(st.integers(0, 3)) == 0:
+        cands = [n for p, n in tdoc.walk(skel) if p and not (n['t'] == 'sc' and n['v'] is None)]
+        if cands:
+            for i in range(draw(st.integers(1, 2))):
+                tgt = cands[draw(st.integers(0, len(cands) - 1))]
+                tgt.setdefault('anchor', f'n{i}')
+                al = {'t': 'alias', 'name': tgt['anchor']}
+                shape = draw(st.integers(0, 2))
+                val = al if shape == 0 else tdoc.sq([al, dict(al)], flow=draw(st.booleans())) if shape == 1 else tdoc.mp([('k', al)], flow=draw(st.booleans()))
+                skel['items'].append([f'zal{i}', val])
     flags = S.flag_set()
     a = draw(S.decorate(skel, flags))
     b = draw(S.decorate(skel, flags))
@@ -70,11 +81,14 @@ def classify(doc):
             labels.add('float-key')
         if n['t'] in ('map', 'seq') and n.get('flow'):
             labels.add('flow')
+        if n['t'] == 'alias':
+            labels.add('alias')
+            nontrivial = True
     return nontrivial, labels
 
 
 def run_case(case):
-    skeleton_plain = tdoc.plain(case['a'])
+    skeleton_plain = tdoc.plain_resolved(case['a'])
     erased = tdoc.render(case['a'], erase=True)
     try:
         ref = yaml.load(erased, Loader=yaml.SafeLoader)
